@@ -16,6 +16,10 @@
 (* not nest).  At the end emphasis is processed with no bottom.            *)
 (* Result tokens: p > 0 the character at p;  -1 <em> -2 </em> -3 <strong>  *)
 (* -4 </strong>  -5 <a href="u">  -6 </a>  -7 the literal text "](u)".     *)
+(* "!" directly before "[" makes it an image opener ("![" is one stack      *)
+(* entry): an image is closed like a link, but earlier brackets stay       *)
+(* active (a link may stand inside an image and an image inside a link);   *)
+(* -8 <img src="u" alt="  -9 " />  (the harness flattens what is between). *)
 (***************************************************************************)
 EXTENDS Naturals, Integers, Sequences, FiniteSets, TLC, Json, IOUtils
 
@@ -25,7 +29,7 @@ VARIABLES input, pos, stack, bottom, cur, ems, links, lit, phase
 vars == <<input, pos, stack, bottom, cur, ems, links, lit, phase>>
 
 IsWs(c)    == c = " "
-IsPunct(c) == c \in {".", "*", "_", "[", "]"}
+IsPunct(c) == c \in {".", "*", "_", "[", "]", "!"}
 IsDelim(c) == c \in {"*", "_"}
 (* what stands before / after position p in the WRITTEN text: "]" is written "](u)", so what follows it is "(" and what
    precedes the character after it is ")" - both punctuation, like "]" itself *)
@@ -39,8 +43,9 @@ CanClose(s, b, e) == IF s[b] = "*" THEN RightFlanking(s, b, e) ELSE RightFlankin
 RunEnd(s, b) == CHOOSE e \in b..Len(s) : (\A q \in b..e : s[q] = s[b]) /\ (e = Len(s) \/ s[e + 1] # s[b])
 
 Run(s, b) == LET e == RunEnd(s, b) IN
-    [k |-> "run", ch |-> s[b], s |-> b, e |-> e, orig |-> e - b + 1, open |-> CanOpen(s, b, e), close |-> CanClose(s, b, e), active |-> TRUE]
-Bracket(p) == [k |-> "[", ch |-> "[", s |-> p, e |-> p, orig |-> 1, open |-> FALSE, close |-> FALSE, active |-> TRUE]
+    [k |-> "run", ch |-> s[b], s |-> b, e |-> e, orig |-> e - b + 1, open |-> CanOpen(s, b, e), close |-> CanClose(s, b, e), active |-> TRUE, img |-> FALSE]
+Bracket(p) == [k |-> "[", ch |-> "[", s |-> p, e |-> p, orig |-> 1, open |-> FALSE, close |-> FALSE, active |-> TRUE, img |-> FALSE]
+ImageBracket(p) == [k |-> "[", ch |-> "[", s |-> p, e |-> p + 1, orig |-> 1, open |-> FALSE, close |-> FALSE, active |-> TRUE, img |-> TRUE]       \* "![" at p, p + 1
 
 Num(d) == d.e - d.s + 1
 Odd(o, c)     == (c.open \/ o.close) /\ (o.orig + c.orig) % 3 = 0 /\ ~(o.orig % 3 = 0 /\ c.orig % 3 = 0)
@@ -69,6 +74,9 @@ Scan ==
             ELSE IF c = "["
             THEN /\ stack' = Append(stack, Bracket(pos)) /\ pos' = pos + 1
                  /\ UNCHANGED <<input, bottom, cur, ems, links, lit, phase>>
+            ELSE IF c = "!" /\ pos < Len(input) /\ input[pos + 1] = "["
+            THEN /\ stack' = Append(stack, ImageBracket(pos)) /\ pos' = pos + 2
+                 /\ UNCHANGED <<input, bottom, cur, ems, links, lit, phase>>
             ELSE IF c = "]"
             THEN LET B == {j \in DOMAIN stack : stack[j].k = "["} IN
                  IF B = {}
@@ -78,7 +86,7 @@ Scan ==
                       IF ~stack[j].active
                       THEN /\ stack' = RemoveAt(stack, j) /\ lit' = lit \cup {pos} /\ pos' = pos + 1
                            /\ UNCHANGED <<input, bottom, cur, ems, links, phase>>
-                      ELSE /\ links' = links \cup {[os |-> stack[j].s, cs |-> pos]}
+                      ELSE /\ links' = links \cup {[os |-> stack[j].s, cs |-> pos, img |-> stack[j].img]}
                            /\ phase' = "linkemph" /\ bottom' = j /\ cur' = j + 1
                            /\ UNCHANGED <<input, pos, stack, ems, lit>>
             ELSE /\ pos' = pos + 1 /\ UNCHANGED <<input, stack, bottom, cur, ems, links, lit, phase>>
@@ -91,7 +99,7 @@ Emph ==
        IF closers = {}
        THEN IF phase = "emph"
             THEN /\ phase' = "done" /\ UNCHANGED <<input, pos, stack, bottom, cur, ems, links, lit>>
-            ELSE /\ stack' = [i \in 1..(bottom - 1) |-> IF stack[i].k = "[" THEN [stack[i] EXCEPT !.active = FALSE] ELSE stack[i]]
+            ELSE /\ stack' = [i \in 1..(bottom - 1) |-> IF stack[i].k = "[" /\ ~stack[i].img /\ ~stack[bottom].img THEN [stack[i] EXCEPT !.active = FALSE] ELSE stack[i]]
                  /\ phase' = "scan" /\ pos' = pos + 1 /\ bottom' = 0 /\ cur' = 1
                  /\ UNCHANGED <<input, ems, links, lit>>
        ELSE LET k == CHOOSE x \in closers : \A y \in closers : x <= y
@@ -121,8 +129,8 @@ Out(p) ==
     IF p > Len(input) THEN << >>
     ELSE IF \E m \in ems : m.os = p THEN LET m == CHOOSE x \in ems : x.os = p IN <<IF m.w = 2 THEN -3 ELSE -1>> \o Out(p + m.w)
     ELSE IF \E m \in ems : m.cs = p THEN LET m == CHOOSE x \in ems : x.cs = p IN <<IF m.w = 2 THEN -4 ELSE -2>> \o Out(p + m.w)
-    ELSE IF \E l \in links : l.os = p THEN <<-5>> \o Out(p + 1)
-    ELSE IF \E l \in links : l.cs = p THEN <<-6>> \o Out(p + 1)
+    ELSE IF \E l \in links : l.os = p THEN (LET l == CHOOSE x \in links : x.os = p IN IF l.img THEN <<-8>> \o Out(p + 2) ELSE <<-5>> \o Out(p + 1))
+    ELSE IF \E l \in links : l.cs = p THEN (LET l == CHOOSE x \in links : x.cs = p IN <<IF l.img THEN -9 ELSE -6>> \o Out(p + 1))
     ELSE IF p \in lit THEN <<-7>> \o Out(p + 1)
     ELSE <<p>> \o Out(p + 1)
 
@@ -132,7 +140,9 @@ Flat(s) == IF s = << >> THEN "" ELSE Head(s) \o Flat(Tail(s))
 TypeOK == /\ cur \in 1..(Len(stack) + 1) /\ bottom \in 0..Len(stack)
           /\ \A k \in DOMAIN stack : Num(stack[k]) >= 1
 (* links do not nest, and emphasis never straddles a link boundary *)
-LinksDisjoint == \A l1, l2 \in links : l1 = l2 \/ l1.cs < l2.os \/ l2.cs < l1.os
+LinksDisjoint == \A l1, l2 \in {l \in links : ~l.img} : l1 = l2 \/ l1.cs < l2.os \/ l2.cs < l1.os
+(* links and images are nested properly *)
+Laminar == \A l1, l2 \in links : l1 = l2 \/ l1.cs < l2.os \/ l2.cs < l1.os \/ (l1.os < l2.os /\ l2.cs < l1.cs) \/ (l2.os < l1.os /\ l1.cs < l2.cs)
 NoStraddle == \A m \in ems : \A l \in links :
     \/ (m.cs + m.w - 1 < l.os) \/ (m.os > l.cs)                      \* beside
     \/ (m.os > l.os /\ m.cs + m.w - 1 < l.cs)                         \* inside the link text
